@@ -40,7 +40,7 @@ func (c10) Assumptions() []string {
 
 var c10Vals = []string{`0`, `1`, `-1`, `1.5`, `1e99`, `18446744073709551616`, `"s"`, `true`, `null`, `[]`, `[1]`, `{}`, `{"a":1}`}
 var c10IDs = []string{``, `null`, `1`, `"s"`, `1.5`, `true`, `[]`, `{"a":1}`}
-var c10Methods = []string{"xrpc.cancel", "xrpc.ch.val", "xrpc.ch.close", "", "S.Echo", "S.Note", "S.Nope"}
+var c10Methods = []string{"xrpc.cancel", "xrpc.ch.val", "xrpc.ch.close", "", "S.Echo", "S.Note", "S.Nope", "S.UseHandle"}
 
 func c10Params() []string {
 	ps := []string{"", "null", "[]", "{}"}
